@@ -272,7 +272,84 @@ def do_random(ctx, rig, count, rng):
                         "reference": repr(reference(cname, inputs, 0.25))[:120]})
 
 
+FLO_TAGS = ("one", "two", "three")
+FLO_VALUES = {"one": 1.0, "two": 2.0, "three": 3.0}
+
+
+def flo_arbiter_class():
+    """a switch arbiter declared the documented way -- a subclass whose class level Inits name its output share, its group
+    and its inputs (every input initially selected) --, used in scripts as `do vf arbiter switch heading`"""
+    from ioflo.base import arbiting, doing
+    from ioflo.aid.odicting import odict
+    if "VfArbiterSwitchHeading" not in doing.Doer.Registry:
+        class VfArbiterSwitchHeading(arbiting.ArbiterSwitch):
+            Inits = odict(output=".heading.out", group=".arb.heading",
+                          inputs=odict((t, (".in.%s" % t, True, 0.5)) for t in FLO_TAGS))
+    return "vf arbiter switch heading"
+
+
+def flo_case(rng):
+    """two instances of the arbiter in one script, each with its own group of selections: one plain (class Inits), one
+    with its output and group named by a `cum` clause (or both with clauses); the groups' selections are partly set by
+    the script before the arbiters are built -- also to deselected -- and otherwise come from the initial values"""
+    insts = [{"out": ".heading.out", "grp": ".arb.heading", "cum": False},
+             {"out": ".alt.out", "grp": ".arb.alt", "cum": True}]
+    if rng.random() < 0.3:
+        insts[0] = {"out": ".third.out", "grp": ".arb.third", "cum": True}
+    if rng.random() < 0.5:
+        insts.reverse()
+    L = ["house h", ""] + ["init .in.%s to value %s" % (t, FLO_VALUES[t]) for t in FLO_TAGS]
+    for it in insts:
+        preset = {t: rng.choice([False, False, True]) for t in FLO_TAGS if rng.random() < 0.6}
+        it["sel"] = {t: preset.get(t, True) for t in FLO_TAGS}
+        if preset:
+            L.append("init %s.insels to %s" % (it["grp"], " ".join("%s %s" % (t, v) for t, v in preset.items())))
+    L += ["", "framer runner be active first fa", ""]
+    for k, it in enumerate(insts):
+        L += ["frame f%s" % "ab"[k],
+              "  do vf arbiter switch heading" + (' cum output "%s" group "%s"' % (it["out"], it["grp"]) if it["cum"] else ""),
+              "  go next if elapsed >= 0.25", ""]
+    L += ["frame done", "  bid stop all", ""]
+    return {"text": "\n".join(L), "insts": insts}
+
+
+def flo_check(ctx, rng):
+    from vf.flo import runner
+    flo_arbiter_class()
+    case = flo_case(rng)
+    res = runner.run_text(case["text"], maxticks=20, proxies=False, behaviors=["vf.flo.recorder"])
+    if not res.built:
+        ctx.inconclusive_case("arbiter script did not build: %s" % (res.build_msgs[-2:],))
+        return
+    ctx.case(case["text"], nontrivial=True)
+    if res.exc is not None:
+        ctx.fail("flo/run-raised/%s" % exc_key(res.exc), "running the arbiter script raised %r" % (res.exc,), {"script": case["text"]})
+        return
+    store = res.skedder.houses[0].store
+    for it in case["insts"]:
+        ctx.hit("script_arbiters_checked")
+        first = next((t for t in FLO_TAGS if it["sel"][t]), None)
+        if first is not None and first != "one":
+            ctx.hit("script_arbiter_first_input_deselected_by_the_script")
+        sh = store.fetchShare(it["out"])
+        got = sh.value if sh is not None else "<no output share>"
+        if first is None:
+            ok = sh is not None and got not in FLO_VALUES.values()        # the default output, whatever it holds
+        else:
+            ok = got == FLO_VALUES[first]
+        ctx.check(ok, "ArbiterSwitch/script/" + ("wrong-output" if sh is not None else "output-share-never-written"),
+                  "`do vf arbiter switch heading%s`: output %s holds %r, the first selected input of its group %s is %s" % (
+                      " cum ..." if it["cum"] else "", it["out"], got, it["grp"], first),
+                  lambda: {"script": case["text"], "instance": it, "output": repr(got),
+                           "insels": dict((store.fetchShare(it["grp"] + ".insels") or {}).items()) if store.fetchShare(it["grp"] + ".insels") is not None else None})
+
+
 def worker(ctx, job):
+    if job["kind"] == "flo":
+        rng = ctx.subrng("c45flo", job["index"])
+        for _ in range(job["count"]):
+            flo_check(ctx, rng)
+        return
     rig = Rig(ctx)
     if job["kind"] == "exh":
         do_exhaustive(ctx, rig, job["cls"], job["n"], job["set"], job["lo"], job["hi"], DTS[job["set"]])
@@ -299,6 +376,9 @@ def run(ctx):
     nrand = ctx.pick(20000, 1600000)
     per = ctx.pick(5000, 25000)
     jobs += [{"kind": "random", "count": per} for _ in range(nrand // per)]
+    jobs += [{"kind": "flo", "count": ctx.pick(40, 800)} for _ in range(4)]
+    ctx.floor("script_arbiters_checked", ctx.pick(300, 6000))
+    ctx.floor("script_arbiter_first_input_deselected_by_the_script", ctx.pick(40, 800))
     jobs.sort(key=lambda j: -(j.get("n", 0)))
     ctx.shard(jobs, timeout=ctx.pick(90, 1500))
     ctx.exhaustive = True
